@@ -647,7 +647,9 @@ pub fn run(args: &[Sexp]) -> String {
     let end;
     loop {
         if count >= maxans {
-            end = "limit";
+            // the answers asked for are all there; a step that does not return (inner cap) run on the way to the last
+            // of them is work the iterator was not asked for
+            end = if proto_vulcan::verif::exhausted() >= 2 { "innercap" } else { "limit" };
             break;
         }
         match iter.next() {
